@@ -11,7 +11,7 @@ CONSTANTS
   Pairs <- GenPairs
 VIEW view
 INVARIANTS XRootOK XCompleteOK
-PROPERTIES XSoundOK XExactOK
+PROPERTIES XSoundOK XExactOK XFunctionOK
 CONSTRAINT InitOutA
 ACTION_CONSTRAINT EdgeA
 CHECK_DEADLOCK FALSE
